@@ -13,6 +13,11 @@ EXTRA = [
     'struct A { a @0: u64, b @1: u1, }\nimpl can for A { id: 4, }',
     'struct A { a @0: u8, s @1: str, }\nimpl can for A { id: 5, }',
     'struct A { a @0: u8, }\nstruct B { b @0: u16, }\nimpl can for A { id: 5, bus: "x", }\nimpl can for B { id: 6, bus: "y", }',
+    # two bindings of the same struct with different per-signal options, on the same and on different buses
+    'struct A { a @0: u8, b @1: u16, }\nimpl can for A as X { id: 1, signal b { endianess: "big", }, }\nimpl can for A as Y { id: 2, }',
+    'struct A { a @0: u8, b @1: u16, }\nimpl can for A as X { id: 1, bus: "p", }\nimpl can for A as Y { id: 2, bus: "q", signal b { endianess: "big", }, }\nimpl can for A as Z { id: 3, bus: "p", }',
+    # an enum whose name starts with a lower-case i (sign flag must come from the type, not from its name)
+    'enum ignition { off = 0, acc = 1, on = 2, start = 3, }\nstruct A { k @0: ignition, r @1: u6, }\nimpl can for A { id: 9, }',
 ]
 
 
